@@ -91,3 +91,50 @@ func Watch(d time.Duration, frameMarker string, fn func()) WatchResult {
 	}
 	return WatchResult{Outcome: Slow, Stack: section}
 }
+
+// MutexParked looks for goroutines that are blocked acquiring a sync.Mutex /
+// sync.RWMutex while executing code whose frames contain frameMarker, twice,
+// `settle` apart; it returns the stack of the first goroutine found parked at the
+// same place both times ("" if none). A goroutine that sits on a mutex of the
+// code under test for that long, while nothing else in the case is running, is a
+// lock that was never released (e.g. by a panic that was recovered further up).
+func MutexParked(frameMarker string, settle time.Duration) string {
+	snap := func() map[string]string {
+		buf := make([]byte, 4<<20)
+		buf = buf[:runtime.Stack(buf, true)]
+		out := map[string]string{}
+		for _, sec := range strings.Split(string(buf), "\n\n") {
+			m := goidRe.FindStringSubmatch(sec)
+			if m == nil || !strings.Contains(sec, frameMarker) {
+				continue
+			}
+			if strings.Contains(sec, "sync.(*Mutex).Lock") || strings.Contains(sec, "sync.(*RWMutex).Lock") || strings.Contains(sec, "sync.(*RWMutex).RLock") {
+				out[m[1]] = sec
+			}
+		}
+		return out
+	}
+	a := snap()
+	if len(a) == 0 {
+		return ""
+	}
+	time.Sleep(settle)
+	b := snap()
+	for id, sec := range a {
+		if sec2, ok := b[id]; ok {
+			// same goroutine, still in a mutex acquisition: compare the innermost frames
+			if firstFrames(sec) == firstFrames(sec2) {
+				return sec2
+			}
+		}
+	}
+	return ""
+}
+
+func firstFrames(sec string) string {
+	lines := strings.Split(sec, "\n")
+	if len(lines) > 9 {
+		lines = lines[1:9]
+	}
+	return strings.Join(lines, "\n")
+}
